@@ -85,6 +85,11 @@ def _sorted_pieces(cx, fm, g, seq, ret, p):
     appends = [n for n in g.nodes if n.kind == 'stmt' and any(
       isinstance(c.func, ast.Attribute) and c.func.attr in ('append', 'extend', 'insert') and dotted(c.func.value) == L for c in g.calls(n))]
     rn = g.nodes_of(ret)
+    if sorts and rn and not appends and len(srcs) == 1:
+      # pieces = [<comprehension over every tag>]; pieces.sort(); return ... join(pieces)
+      full, excl = _pieces_of_tags(srcs[0], p, fm)
+      if full and rn[0] not in g.reach([g.entry], removed_nodes=set(sorts), normal_only=True):
+        return True, excl, ''
     if sorts and rn:
       sorted_before = rn[0] not in g.reach([g.entry], removed_nodes=set(sorts), normal_only=True)
       grows_after = any(a in g.reach(g.after(s_), normal_only=True) for s_ in sorts for a in appends)
